@@ -23,7 +23,7 @@ CLAIM = dict(cat="proof", design="§3 C10 (shares §3 C04 machinery)",
         "Tie, every run: face lists of the real gradient and flux sweeps == model and pass faces_once_check; all eight operations bit-exact against the real Hydro; WHOLE STEPS of the extracted "
         "binary64 model == the real sweeps bit for bit on 6+ layouts x periodic/walls x 4 initial states; read/write sets of the real operations observed by perturbing one field at a time lie inside "
         "the declared sets, and accumulating operations satisfy result == fl(previous +/- contribution) bit for bit. Oracle on the real code: 6 layouts x 3 task orders agree to <= 1e-12 of the field scale "
-        "with the undivided sequential sweep after several steps, repeated sequential runs are bit-identical, two faces sharing a cell commute.",
+        "with the undivided sequential sweep after several steps, repeated sequential runs are bit-identical, two faces sharing a cell commute. Task-table tie (shared with C07, theorem C07_phases_ordered): on every run the REAL hydro task tables of several layouts are dumped and every pair of tasks in consecutive phases that touch a common subgrid must be connected by a dependency path; otherwise a legal order of the REAL task objects that starts the later task first is executed and reported as the failing history.",
    note="Trusted: Coq kernel + standard real-number axioms incl. functional extensionality (states are functions); extraction + OCaml driver for the correspondences. "
         "Premise (a) phases_ordered is proved in C07, not here: C07_phases_ordered (for every layout and periodicity, any two tasks of the hydro task table that touch the same subgrid and lie in consecutive "
         "phases gradient sweeps -> slope limiter -> primitive prediction -> flux sweeps -> conserved update -> primitive update are linked by a direct child edge, and every phase has a task on every subgrid) and "
@@ -412,8 +412,17 @@ def gen_groups(rng, quick):
     return groups
 
 
+def _deps(ck):
+    import hydro_deps
+    fs = hydro_deps.phase_order_findings(ck)
+    for f in (fs or [])[:2]:
+        ck.violation('C10: the hydro task table of the real code does not order the phases: %s of subgrid %d can start before %s (which touches the same subgrid) has run - layout %s; executing the REAL task objects in the legal order %s starts it first, so the result of a step depends on the schedule and on the layout' % (f["t2"], f["subgrid"], f["t1"], tuple(f["layout"]), f["order"]),
+                     {"hydro_task_table": f}, key={"kind": "task_table_phase_order"})
+
+
 def run(ck):
     ck.prove()
+    _deps(ck)
     d = ck.scratch
     ok = build(ck, d)
     cov = ck.coverage
@@ -459,6 +468,12 @@ def run(ck):
 
 
 def replay(ck, rp):
+    if "hydro_task_table" in rp.get("replay", {}):
+        import hydro_deps
+        f = rp["replay"]["hydro_task_table"]
+        fs = hydro_deps.phase_order_findings(ck, [tuple(f["layout"])])
+        print("REPLAY:", ("the real task table still lets %s start before %s: %r" % (fs[0]["t2"], fs[0]["t1"], fs[0]["observed"])) if fs else "property holds on this input")
+        return 1 if fs else 0
     d = ck.scratch
     r = rp["replay"]
     kind = r.get("kind")
